@@ -393,8 +393,10 @@ def vec_getitem(ctx, a, idx):
             return r
         raise Unsupported("symbolic slice of Vec")
     if isinstance(idx, Vec):
-        if all(isinstance(m, bool) for m in idx.data) and idx.shape == a.shape:
-            return Vec([x for x, m in zip(a.data, idx.data) if m])
+        if idx.shape == a.shape and all(isinstance(m, bool) or (is_z3(m) and z3.is_bool(m)) for m in idx.data):
+            # boolean-mask selection: the result length depends on the mask, so each entry is decided
+            # on this path (forks when the path condition leaves it open)
+            return Vec([x for x, m in zip(a.data, idx.data) if (m if isinstance(m, bool) else ctx.branch(m))])
         if all(isinstance(m, int) and not isinstance(m, bool) for m in idx.data):
             return Vec([a.data[m] for m in idx.data])
         raise Unsupported("symbolic mask selection on Vec")
